@@ -177,6 +177,15 @@ class Program:
                     n += 1
         for mi in self.modules.values():
             self._index(mi)
+        # helpers that the rules do not know (introduced by a refactoring) are inlined into their callers
+        from .inline import inline_new_helpers
+
+        self.inlined = inline_new_helpers(self)
+        if self.inlined:
+            self.funcs, self.classes, self.by_short, self.class_by_name = {}, {}, {}, {}
+            for mi in self.modules.values():
+                mi.imports, mi.funcs, mi.classes, mi.consts = {}, {}, {}, {}
+                self._index(mi)
 
     def _abs_module(self, mi, level, module):
         if level == 0:
@@ -256,6 +265,10 @@ class Program:
                 continue
             stack.extend(ast.iter_child_nodes(n))
         return fi
+
+    def is_inlined_helper(self, fi):
+        """a helper unknown to the rules whose body was expanded into its callers (not analysed on its own)"""
+        return any(h == fi.qname for _, h in getattr(self, "inlined", []))
 
     # ---- lookup -----------------------------------------------------------
     def module(self, name):
@@ -492,7 +505,8 @@ class Program:
         subs = self.subclasses(ci.name)
         if ci.name == "AbstractStorage":
             return subs
-        return [ci]
+        # class-hierarchy dispatch: a value typed C may be any subclass of C
+        return [ci] + [c for c in subs if c is not ci]
 
     def resolve_call(self, call, fi, env=None):
         """-> list of FuncInfo the call may reach ([] if unresolved / external)."""
